@@ -14,6 +14,7 @@ pub struct DetectOpts {
     pub n: usize,
     pub max_len: usize,
     pub big: usize,
+    pub mid: usize,
     pub driver: String,
     pub focus: String,
     pub out: String,
@@ -233,7 +234,7 @@ pub fn run(o: &DetectOpts) -> serde_json::Value {
                     if rng.chance(1, 2) { c.settings.include_encodings.push(bad) } else { c.settings.exclude_encodings.push(bad) }
                 }
             }
-            if (o.focus == "C06" || o.focus == "C07") && rng.chance(1, 3) {
+            if (o.focus == "C06" || o.focus == "C07" || o.focus == "C18") && rng.chance(1, 3) {
                 // a hint whose own decoding is NOISY: chaos of the hinted encoding lands between 0 and the threshold, on
                 // both sides of the 10% bound of the early exit.  Hint = BOM / signature (2 in 4), declaration (1 in 4), or
                 // none (plain utf-8 / ascii); body = text valid in the hinted encoding with symbols, control characters or
@@ -259,7 +260,7 @@ pub fn run(o: &DetectOpts) -> serde_json::Value {
                 c.settings.threshold = ordered_float::OrderedFloat(*rng.pick(&[0.2f32, 0.2, 0.3, 0.5, 1.0]));
                 c.settings.preemptive_behaviour = !rng.chance(1, 5);
             }
-            if o.focus == "C07" && rng.chance(1, 2) {
+            if (o.focus == "C07" || o.focus == "C18") && rng.chance(1, 2) {
                 // mark-heavy stream
                 let ms = marks();
                 let (_, m) = *rng.pick(&ms);
@@ -315,10 +316,52 @@ pub fn run(o: &DetectOpts) -> serde_json::Value {
                 }
             }
         }
-        // large payloads: both sides of the lazy limits.  Variants (k mod 4):
+        let legacy_text = |rng: &mut Rng, target: usize| -> (Vec<u8>, &'static str) { legacy_text(rng, &corpus, target) };
+        // mid-size payloads: above the 500,000-byte prefix limit, at most 1,000,000 bytes -- strict decoding of the
+        // WHOLE input still applies (no lazy mode), for single-byte candidates too
+        for k in 0..o.mid {
+            let target = match k % 4 { 0 => 500_001 + rng.below(200_000), 1 => 1_000_000, 2 => 500_001, _ => 700_000 + rng.below(300_000) };
+            let (mut b, enc) = legacy_text(&mut rng, target);
+            if k % 3 == 2 {
+                // a byte the code page does not define / an anomaly in the second half
+                let p = 500_000 + rng.below(b.len() - 500_000);
+                b[p] = *rng.pick(&[0x98u8, 0x81, 0xff, 0xd2]);
+            }
+            let mut s = default_settings();
+            s.include_encodings = vec![enc.to_string(), "utf-8".into(), "ascii".into(), "iso-8859-3".into()];
+            if k % 2 == 1 {
+                s.steps = rng.range(1, 12);
+                s.chunk_size = rng.range(16, 2048);
+            }
+            cases.push(Case { kind: format!("mid-legacy-v{}", k % 4), bytes: b, settings: s });
+        }
+        // large payloads: both sides of the lazy limits.  Variants:
         //  0 clean ASCII, default threshold            1 ASCII + high byte after 500,000, threshold 0 (fall-back paths)
         //  2 corpus text repeated + high byte early     3 ASCII + high byte after 500,000, default threshold
-        for k in 0..o.big {
+        //  4 ASCII for the first 500,000+ bytes, then legacy single-byte text (a log that turns Cyrillic / a text header
+        //    followed by other content): the sampled chunks beyond the pre-checked prefix hold bytes some code pages do not define
+        //  5 legacy single-byte text throughout
+        for kk in 0..o.big {
+            let k = [0usize, 1, 4, 2, 3, 5][kk % 6] + 6 * (kk / 6);
+            if k % 6 >= 4 {
+                let target = 1_000_001 + rng.below(300_000);
+                let (tail, enc) = if k % 6 == 4 && (k / 6) % 2 == 0 { legacy_text_in(&mut rng, &corpus, target, "windows-1251") } else { legacy_text(&mut rng, target) };
+                let b = if k % 6 == 4 {
+                    let head = 500_000 + rng.below(150_000);
+                    let mut b = ascii_text(&mut rng, head);
+                    b.extend_from_slice(&tail[..target - head]);
+                    b
+                } else { tail };
+                let mut s = default_settings();
+                s.include_encodings = vec!["iso-8859-3".into(), enc.to_string(), "utf-8".into(), "ascii".into(), "windows-1252".into()];
+                if (k / 6) % 2 == 1 {
+                    s.steps = rng.range(1, 12);
+                    s.chunk_size = rng.range(16, 2048);
+                }
+                cases.push(Case { kind: format!("large-v{}", k % 6), bytes: b, settings: s });
+                continue;
+            }
+            let k = (k % 6) + 4 * (k / 6);
             let base = &corpus.files[rng.below(corpus.files.len())].bytes;
             let target = match (k / 4) % 4 {
                 0 => 1_000_001 + rng.below(3),
@@ -454,6 +497,7 @@ pub fn run(o: &DetectOpts) -> serde_json::Value {
                 found.extend(check_c07(&c.bytes, &c.settings, ms));
                 found.extend(check_c08(ms));
                 found.extend(check_c10(&c.bytes, &c.settings, ms));
+                found.extend(check_c18(&c.bytes, &c.settings, ms, focus == "C18" && c.bytes.len() <= 20000));
                 if (focus == "C19" || !same) && c.bytes.len() <= 6000 {
                     if let Some(best) = ms.get_best() {
                         let e = best.encoding().to_string();
